@@ -68,10 +68,19 @@ const (
 	pkSliceIface
 	pkMapIface
 	pkMapInt
+	pkCtxLike // a pointer type that embeds (and so implements) context.Context: an ordinary parameter
 	pkCount
 )
 
-var pkNames = []string{"string", "bool", "int", "int8", "int16", "int32", "int64", "float32", "float64", "interface{}", "*decimal.Big", "time.Time", "[]string", "[]int", "[]interface{}", "map[string]interface{}", "map[string]int"}
+// c11ReqCtx implements context.Context by embedding one; as a parameter type it is a plain struct pointer.
+type c11ReqCtx struct {
+	context.Context
+	User string
+}
+
+var c11RC = &c11ReqCtx{Context: context.Background(), User: "u1"}
+
+var pkNames = []string{"string", "bool", "int", "int8", "int16", "int32", "int64", "float32", "float64", "interface{}", "*decimal.Big", "time.Time", "[]string", "[]int", "[]interface{}", "map[string]interface{}", "map[string]int", "*c11ReqCtx"}
 
 var ifaceType = reflect.TypeOf((*interface{})(nil)).Elem()
 var errType = reflect.TypeOf((*error)(nil)).Elem()
@@ -80,7 +89,7 @@ var ctxType = reflect.TypeOf((*context.Context)(nil)).Elem()
 var pkTypes = []reflect.Type{
 	reflect.TypeOf(""), reflect.TypeOf(true), reflect.TypeOf(int(0)), reflect.TypeOf(int8(0)), reflect.TypeOf(int16(0)), reflect.TypeOf(int32(0)), reflect.TypeOf(int64(0)),
 	reflect.TypeOf(float32(0)), reflect.TypeOf(float64(0)), ifaceType, reflect.TypeOf((*decimal.Big)(nil)), reflect.TypeOf(time.Time{}),
-	reflect.TypeOf([]string(nil)), reflect.TypeOf([]int(nil)), reflect.TypeOf([]interface{}(nil)), reflect.TypeOf(map[string]interface{}(nil)), reflect.TypeOf(map[string]int(nil)),
+	reflect.TypeOf([]string(nil)), reflect.TypeOf([]int(nil)), reflect.TypeOf([]interface{}(nil)), reflect.TypeOf(map[string]interface{}(nil)), reflect.TypeOf(map[string]int(nil)), reflect.TypeOf((*c11ReqCtx)(nil)),
 }
 
 var tailKinds = []int{pkString, pkBool, pkInt, pkInt32, pkInt64, pkF64, pkIface, pkDec}
@@ -144,6 +153,11 @@ func init() {
 		argv{kind: "arr", goTyped: true, expr: "rc.ints", elems: []argv{{kind: "num", num: "65"}, {kind: "num", num: "66"}}},
 		argv{kind: "arr", goTyped: true, expr: "rc.strs", elems: []argv{{kind: "str", str: "p"}, {kind: "str", str: "q"}}},
 		argv{kind: "null", expr: "np"}, // a typed nil pointer read by name
+		argv{kind: "ctxlike", expr: "rcx"},
+		// the same (non-cyclic) object more than once inside an argument
+		argv{kind: "arr", expr: "[mp, mp]", elems: []argv{{kind: "map"}, {kind: "map"}}},
+		argv{kind: "arr", expr: "($al = [1, 2], [$al, $al])", elems: []argv{{kind: "arr", elems: []argv{{kind: "num", num: "1"}, {kind: "num", num: "2"}}}, {kind: "arr", elems: []argv{{kind: "num", num: "1"}, {kind: "num", num: "2"}}}}},
+		argv{kind: "arr", goTyped: true, expr: "rc.twice", elems: []argv{{kind: "map"}, {kind: "map"}}},
 	)
 }
 
@@ -161,6 +175,7 @@ type anyValue struct{} // invoked, received value not fixed
 type decWant struct{ s string }
 type numText struct{ s string }
 type identWant struct{ obj interface{} }
+type identPtr struct{ obj interface{} }
 
 func truncInt(num string) int64 {
 	d, _ := ref.ParseDec(num)
@@ -177,6 +192,21 @@ func row(pk int, a argv) (int, interface{}) {
 	comp := a.kind == "arr" || a.kind == "map" || a.kind == "time"
 	if a.kind == "nonfinite" && !(pk >= pkInt && pk <= pkF64) {
 		if pk == pkBool || pk == pkString || pk == pkIface || pk == pkDec {
+			return vU, nil
+		}
+		return vF, nil
+	}
+	if a.kind == "ctxlike" {
+		switch pk {
+		case pkCtxLike, pkIface:
+			return vD, identPtr{c11RC}
+		case pkString:
+			return vD, anyValue{}
+		}
+		return vF, nil
+	}
+	if pk == pkCtxLike {
+		if a.kind == "null" {
 			return vU, nil
 		}
 		return vF, nil
@@ -335,6 +365,8 @@ func sameArg(got interface{}, want interface{}) bool {
 		d, ok := decOf(got)
 		wd, _ := ref.ParseDec(w.s)
 		return ok && d.Finite() && d.Cmp(wd) == 0
+	case identPtr:
+		return got != nil && reflect.TypeOf(got).Kind() == reflect.Ptr && reflect.ValueOf(got).Pointer() == reflect.ValueOf(w.obj).Pointer()
 	case identWant:
 		return got != nil && reflect.TypeOf(got).Kind() == reflect.Map && reflect.ValueOf(got).Pointer() == reflect.ValueOf(w.obj).Pointer()
 	case time.Time:
@@ -548,7 +580,7 @@ func judgeCall(c CallCase) *eng.Fail {
 	}
 	invocations = invocations[:0]
 	data := map[string]interface{}{"host": makeHost(c.Fixed, c.Tail, c.Ctx, c.Ret), "mp": c11Map, "tm": c11Time,
-		"rc": map[string]interface{}{"nilsl": []string(nil), "nilany": []interface{}(nil), "ints": []int{65, 66}, "strs": []string{"p", "q"}}, "np": (*int)(nil)}
+		"rc": map[string]interface{}{"nilsl": []string(nil), "nilany": []interface{}(nil), "ints": []int{65, 66}, "strs": []string{"p", "q"}, "twice": []map[string]interface{}{c11Map, c11Map}}, "np": (*int)(nil), "rcx": c11RC}
 	r := formula.NewRunner()
 	r.SetThis(data)
 	o := safeResolve(r, c11Ctx, p.Expression)
